@@ -2,8 +2,8 @@ package c06
 
 import (
 	"context"
-	"encoding/json"
 	"database/sql"
+	"encoding/json"
 	"errors"
 	"fmt"
 	"os"
@@ -70,20 +70,20 @@ var errNoSQL = errors.New("c06: the fake SqlConn executes no statements")
 // fakeConn is the sqlx.SqlConn handed to sqlc; every real access goes through the closures.
 type fakeConn struct{}
 
-func (fakeConn) Exec(string, ...any) (sql.Result, error)                         { return nil, errNoSQL }
-func (fakeConn) ExecCtx(context.Context, string, ...any) (sql.Result, error)     { return nil, errNoSQL }
-func (fakeConn) Prepare(string) (sqlx.StmtSession, error)                        { return nil, errNoSQL }
-func (fakeConn) PrepareCtx(context.Context, string) (sqlx.StmtSession, error)    { return nil, errNoSQL }
-func (fakeConn) QueryRow(any, string, ...any) error                              { return errNoSQL }
-func (fakeConn) QueryRowCtx(context.Context, any, string, ...any) error          { return errNoSQL }
-func (fakeConn) QueryRowPartial(any, string, ...any) error                       { return errNoSQL }
-func (fakeConn) QueryRowPartialCtx(context.Context, any, string, ...any) error   { return errNoSQL }
-func (fakeConn) QueryRows(any, string, ...any) error                             { return errNoSQL }
-func (fakeConn) QueryRowsCtx(context.Context, any, string, ...any) error         { return errNoSQL }
-func (fakeConn) QueryRowsPartial(any, string, ...any) error                      { return errNoSQL }
-func (fakeConn) QueryRowsPartialCtx(context.Context, any, string, ...any) error  { return errNoSQL }
-func (fakeConn) RawDB() (*sql.DB, error)                                         { return nil, errNoSQL }
-func (fakeConn) Transact(func(sqlx.Session) error) error                         { return errNoSQL }
+func (fakeConn) Exec(string, ...any) (sql.Result, error)                        { return nil, errNoSQL }
+func (fakeConn) ExecCtx(context.Context, string, ...any) (sql.Result, error)    { return nil, errNoSQL }
+func (fakeConn) Prepare(string) (sqlx.StmtSession, error)                       { return nil, errNoSQL }
+func (fakeConn) PrepareCtx(context.Context, string) (sqlx.StmtSession, error)   { return nil, errNoSQL }
+func (fakeConn) QueryRow(any, string, ...any) error                             { return errNoSQL }
+func (fakeConn) QueryRowCtx(context.Context, any, string, ...any) error         { return errNoSQL }
+func (fakeConn) QueryRowPartial(any, string, ...any) error                      { return errNoSQL }
+func (fakeConn) QueryRowPartialCtx(context.Context, any, string, ...any) error  { return errNoSQL }
+func (fakeConn) QueryRows(any, string, ...any) error                            { return errNoSQL }
+func (fakeConn) QueryRowsCtx(context.Context, any, string, ...any) error        { return errNoSQL }
+func (fakeConn) QueryRowsPartial(any, string, ...any) error                     { return errNoSQL }
+func (fakeConn) QueryRowsPartialCtx(context.Context, any, string, ...any) error { return errNoSQL }
+func (fakeConn) RawDB() (*sql.DB, error)                                        { return nil, errNoSQL }
+func (fakeConn) Transact(func(sqlx.Session) error) error                        { return errNoSQL }
 func (fakeConn) TransactCtx(context.Context, func(context.Context, sqlx.Session) error) error {
 	return errNoSQL
 }
@@ -277,21 +277,21 @@ type world struct {
 	faulty  bool
 	e, nfe  time.Duration
 
-	ents   []*entity
-	byKey  map[string]*entity
-	clk    int
-	nVer   int
-	nErr   int
-	nCall  int
-	gauge  map[string]int
-	execs  []*qexec
-	rules  []*rule
-	dels   []delExec
-	htask  map[int]bool
-	faults []time.Time // instants of injected store failures (for the breaker estimate)
+	ents      []*entity
+	byKey     map[string]*entity
+	clk       int
+	nVer      int
+	nErr      int
+	nCall     int
+	gauge     map[string]int
+	execs     []*qexec
+	rules     []*rule
+	dels      []delExec
+	htask     map[int]bool
+	faults    []time.Time // instants of injected store failures (for the breaker estimate)
 	lastFault time.Time
-	down       simredis.Kind // store outage in force: every command (handshakes excepted) fails this way
-	start      time.Time
+	down      simredis.Kind // store outage in force: every command (handshakes excepted) fails this way
+	start     time.Time
 	aborted   bool
 	ops       []string
 }
